@@ -76,6 +76,10 @@ theorem armReplay_framed (o : Outbound) (h : o.ArenaInv) (hf : o.FramedInv) : o.
     exact Framed_setDup x (hf x hx)
   · rw [he]; exact hf
 
+theorem rearm_framed (o : Outbound) (h : o.ArenaInv) (hf : o.FramedInv) : o.rearm.FramedInv := by
+  have hd : o.dropPingreq.ArenaInv := ArenaInv_of_layout h rfl rfl rfl
+  exact armReplay_framed _ hd (FramedInv_same hf rfl rfl)
+
 theorem encodeAt_framed {ε : Type} (o : Outbound) (enc : Nat → (Nat → Nat → Bytes) → Except ε (Nat × Bytes))
     (h : o.ArenaInv) (he : EncOk enc) (hf : o.FramedInv) : (o.encodeAt enc).1.FramedInv := by
   obtain ⟨_, hc, _⟩ := encodeAt_spec o enc h he
@@ -189,7 +193,7 @@ theorem closed_FramedP : Closed FramedP where
     exact handlePacket_framed s.data s.rt p h.1.1 h.2
   handleDisconnect := by
     intro s h
-    exact ⟨arena_of_closed h.1 (fun hp => (closed_ArenaP _).handleDisconnect s hp), armReplay_framed _ h.1.1 h.2⟩
+    exact ⟨arena_of_closed h.1 (fun hp => (closed_ArenaP _).handleDisconnect s hp), rearm_framed _ h.1.1 h.2⟩
   activate := by
     intro s sp block now h
     refine ⟨arena_of_closed h.1 (fun hp => (closed_ArenaP _).activate s sp block now hp), ?_⟩
@@ -201,7 +205,7 @@ theorem closed_FramedP : Closed FramedP where
       · exact h
     generalize (if (!sp) = true then { s with data := s.data.reset } else s) = s0 at h0 ⊢
     split
-    · exact armReplay_framed _ h0.1.1 h0.2
+    · exact rearm_framed _ h0.1.1 h0.2
     · exact h0.2
   alloc := by
     intro s h
@@ -248,7 +252,7 @@ theorem closed_FramedP : Closed FramedP where
   commit := by intro s bytes h; exact h
   beginConnect := by
     intro s h
-    exact ⟨arena_of_closed h.1 (fun hp => (closed_ArenaP _).beginConnect s hp), armReplay_framed _ h.1.1 h.2⟩
+    exact ⟨arena_of_closed h.1 (fun hp => (closed_ArenaP _).beginConnect s hp), rearm_framed _ h.1.1 h.2⟩
   setPid := by intro s n _ _ h; exact h
 
 end Minimq
